@@ -103,7 +103,9 @@ func (m *SubackMessage) Decode(src []byte) (int, error) {
 	total += 2
 
 	l := int(m.remlen) - (total - hn)
-	m.returnCodes = src[total : total+l]
+	// Capacity ends with the packet: AddReturnCodes on a decoded message must
+	// not append into the bytes that follow it in the caller's buffer.
+	m.returnCodes = src[total : total+l : total+l]
 	total += len(m.returnCodes)
 
 	for i, code := range m.returnCodes {
